@@ -314,9 +314,19 @@ def _thresholds(x, out):
             _thresholds(y, out)
 
 
-def len_grid_table(a, params):
+def len_thresholds(a):
+    """integer constants the function's branch conditions compare against"""
+    ks = set()
+    for bi in sorted(a.cfg.reach):
+        t = a.body.blocks[bi]['term']
+        if t['k'] == 'switch':
+            _thresholds(strip_sites(a.val_op(t['discr'], a.term_point(bi))), ks)
+    return ks
+
+
+def len_grid_table(a, params, reps=None):
     """for a function that branches only on comparisons of the lengths of its slice parameters with constants:
-    exhaustive simulation over one representative length per equivalence class.
+    exhaustive simulation over one representative length per equivalence class (or over the given lengths `reps`).
     -> (reps, rows) with rows = [({param: len}, ret_term, site)]"""
     if a.cfg.back_edges():
         raise Undecidable('loop in ' + a.body.key)
@@ -329,9 +339,11 @@ def len_grid_table(a, params):
             _thresholds(d, ks)
             _cast_widths(d, ws)
     top = (max(ks) if ks else 0) + 1
+    if reps is not None:
+        top, ws = 0, set()
     if top > 64:
         raise Undecidable('length thresholds too large')
-    reps = list(range(0, top + 1))
+    reps = list(range(0, top + 1)) if reps is None else list(reps)
     # a narrowing cast makes the verdict depend on (len, len mod 2^w): one representative per pair of classes —
     # every small class again shifted by 2^w (same residue, but a large length), and the largest residue
     for w in sorted(ws):
